@@ -182,7 +182,7 @@ theorem store_bigint_exact (f : Fmt) (hf : 0 ≤ f.nfrac) (r : Rounding) (o : Ov
     unfold storeNeedsPyInt at hnp'
     simp only [Bool.or_eq_false_iff, Bool.not_eq_false', decide_eq_true_eq, Bool.and_eq_false_iff,
       decide_eq_false_iff_not] at hnp'
-    obtain ⟨⟨hv, hsc⟩, _⟩ := hnp'
+    obtain ⟨⟨⟨hv, _⟩, hsc⟩, _⟩ := hnp'
     have : FitsI64 (v * 2 ^ f.nfrac.toNat) := by
       rcases hsc with h | h
       · have : f.nfrac.toNat = 0 := by omega
